@@ -106,47 +106,56 @@ func checkC34(c *Ctx) (string, []string) {
 	{
 		f := fn["UpdateValidatorActivityStatistics"]
 		c.checkShapes("C34.epoch-rotation", "internal/statistics.GetEpochIndex", fn["GetEpochIndex"], returnShapes(fn["GetEpochIndex"]), map[string][]string{"ret": {"(p0 / u32(internal/types.EpochLength))"}})
-		same := condEdges(f, func(v ssa.Value) (bool, bool) {
-			return exprStr(v, shapeOpts) == "(internal/statistics.GetEpochIndex((*internal/blockchain.PosteriorStates).GetTau("+post+")) == internal/statistics.GetEpochIndex((*internal/blockchain.PriorStates).GetTau("+prior+")))", true
-		})
-		diff := make([]edge, len(same))
-		for i, e := range same {
-			diff[i] = edge{e.from, 1 - e.succ}
+		// which records the two setters receive, for each outcome of the epoch comparison (the written form of the
+		// test and of the arms does not matter: the function is followed with the two epoch indices valued)
+		wantArgs := map[bool][2]string{
+			true:  {priorPi + ".ValsCurr", priorPi + ".ValsLast"},
+			false: {"make([]internal/types.ValidatorActivityRecord, internal/types.ValidatorsCount)", priorPi + ".ValsCurr"},
 		}
-		c.Check(len(same) == 1, "C34.epoch-rotation", "internal/statistics.UpdateValidatorActivityStatistics · epoch test", f.Pos(),
-			"branches on GetEpochIndex(posterior τ) == GetEpochIndex(prior τ)", "no branch on equality of prior and posterior epoch index (conditions: "+strings.Join(condShapes(f), " ; ")+")")
-		want := map[string][]edge{
-			"(*internal/blockchain.PosteriorStates).SetPiCurrent(" + post + ", " + priorPi + ".ValsCurr)":                                                       same,
-			"(*internal/blockchain.PosteriorStates).SetPiLast(" + post + ", " + priorPi + ".ValsLast)":                                                          same,
-			"(*internal/blockchain.PosteriorStates).SetPiCurrent(" + post + ", make([]internal/types.ValidatorActivityRecord, internal/types.ValidatorsCount))": diff,
-			"(*internal/blockchain.PosteriorStates).SetPiLast(" + post + ", " + priorPi + ".ValsCurr)":                                                          diff,
-		}
-		seen := map[string]bool{}
-		allInstrs(f, func(in ssa.Instruction) {
-			ci, ok := in.(*ssa.Call)
-			if !ok {
-				return
+		for _, ep := range [][2]int64{{5, 5}, {5, 6}, {6, 5}, {0, 0}} {
+			same := ep[0] == ep[1]
+			arm := "different epoch"
+			if same {
+				arm = "same epoch"
 			}
-			sc := ci.Call.StaticCallee()
-			if sc == nil || !strings.Contains(sc.String(), ").Set") {
-				return
-			}
-			var args []string
-			for _, a := range ci.Call.Args {
-				args = append(args, exprStr(a, shapeOpts))
-			}
-			s := relName(sc.String()) + "(" + strings.Join(args, ", ") + ")"
-			edges, known := want[s]
-			if !known {
-				c.Bad("C34.epoch-rotation", "internal/statistics.UpdateValidatorActivityStatistics · unexpected setter", in.Pos(), "setter call not in the specification table: %s", s)
-				return
-			}
-			seen[s] = true
-			c.Check(guardedBy(f, in, edges), "C34.epoch-rotation", "internal/statistics.UpdateValidatorActivityStatistics · "+s, in.Pos(), "on the specified arm of the epoch test", "setter is not confined to the specified arm of the epoch test")
-		})
-		for s := range want {
-			if !seen[s] {
-				c.Bad("C34.epoch-rotation", "internal/statistics.UpdateValidatorActivityStatistics · "+s, f.Pos(), "required setter call missing")
+			got := map[string][]string{}
+			valued := 0
+			_, ok := runWithAtomsChoice(f, shapeOpts, func(s string) (int64, bool) {
+				if strings.HasPrefix(s, "internal/statistics.GetEpochIndex(") || strings.HasPrefix(s, "statistics.GetEpochIndex(") {
+					switch {
+					case strings.Contains(s, "PosteriorStates).GetTau(") || strings.Contains(s, "post.GetTau("):
+						valued++
+						return ep[1], true
+					case strings.Contains(s, "PriorStates).GetTau(") || strings.Contains(s, "prior.GetTau("):
+						valued++
+						return ep[0], true
+					}
+				}
+				return 0, false
+			}, func(in ssa.Instruction, choice map[*ssa.Phi]ssa.Value) {
+				ci, isCall := in.(*ssa.Call)
+				if !isCall || ci.Call.StaticCallee() == nil {
+					return
+				}
+				n := ci.Call.StaticCallee().Name()
+				if (n == "SetPiCurrent" || n == "SetPiLast") && len(ci.Call.Args) == 2 {
+					recv := exprStr(ci.Call.Args[0], shapeOpts)
+					if recv != post {
+						n += " on " + recv
+					}
+					got[n] = append(got[n], exprStr(resolveChoice(ci.Call.Args[1], choice), shapeOpts))
+				}
+			})
+			key := fmt.Sprintf("internal/statistics.UpdateValidatorActivityStatistics · %s (τ epoch %d → %d)", arm, ep[0], ep[1])
+			switch {
+			case !ok || valued < 2:
+				c.Bad("C34.epoch-rotation", key, f.Pos(), "the rotation is not decided by comparing GetEpochIndex(prior τ) with GetEpochIndex(posterior τ) (conditions: %s)", strings.Join(condShapes(f), " ; "))
+			case len(got) != 2 || len(got["SetPiCurrent"]) != 1 || len(got["SetPiLast"]) != 1:
+				c.Bad("C34.epoch-rotation", key, f.Pos(), "the posterior records are not set by exactly one SetPiCurrent and one SetPiLast on the posterior state: %v", got)
+			case got["SetPiCurrent"][0] != wantArgs[same][0] || got["SetPiLast"][0] != wantArgs[same][1]:
+				c.Bad("C34.epoch-rotation", key, f.Pos(), "current ← %s, last ← %s; the specification requires current ← %s, last ← %s", abbr(got["SetPiCurrent"][0]), abbr(got["SetPiLast"][0]), abbr(wantArgs[same][0]), abbr(wantArgs[same][1]))
+			default:
+				c.OK("C34.epoch-rotation", key, f.Pos(), "current ← %s, last ← %s", abbr(got["SetPiCurrent"][0]), abbr(got["SetPiLast"][0]))
 			}
 		}
 		// the three updaters, each with the latest block's extrinsic
@@ -182,7 +191,7 @@ func checkC34(c *Ctx) (string, []string) {
 	sr := "alloc:internal/statistics.Pi_S_R_Output"
 	sres := "p1[p0]#0[*].RefineLoad"
 	c.checkShapes("C34.core-service-sums", "internal/statistics.CalculateServiceResults", fn["CalculateServiceResults"], returnShapes(fn["CalculateServiceResults"]), map[string][]string{
-		"ret.n":              {"(1 + " + sr + ".n)"},
+		"ret.n":              {"(1 + " + sr + ".n)", "u32(len(p1[p0]))"}, // counted per element, or taken as the length of the same list
 		"ret.Imports":        {"(" + sr + ".Imports + u32(" + sres + ".Imports))"},
 		"ret.ExtrinsicCount": {"(" + sr + ".ExtrinsicCount + u32(" + sres + ".ExtrinsicCount))"},
 		"ret.ExtrinsicSize":  {"(" + sr + ".ExtrinsicSize + " + sres + ".ExtrinsicSize)"},
